@@ -35,9 +35,13 @@ func init() {
 			"Further families (audit.go, same oracles): mixed = 8 validators with different options (clock in/outside the signer certificate's validity, right/wrong/no roots, expected digest, VMSA counts, base policy/overwrite, other family id) alive and invoked together, a sibling pair differing in one option must accept resp. reject the same input; " +
 			"reconfig = one SevValidateOptions value whose owner changes one field before each burst of SevValidate calls, each call compared with a fresh options value of the same field values; " +
 			"reused = each goroutine keeps one attestation value, measurement buffer and endorsement buffer refilled in place; " +
-			"flaky = endorsements downloaded from a bucket whose answer per object follows a script (good/error/garbage/empty/other build), each call judged by the answer its own download got",
+			"flaky = endorsements downloaded from a bucket whose answer per object follows a script (good/error/garbage/empty/other build), each call judged by the answer its own download got. " +
+			"Fourth-round families (round4.go): kept = the caller keeps its attestation values, the reports of one machine share one certificate-chain message (also read by several goroutines), attestations are validated again after failed downloads, the closure is reached through go-sev-guest's certificate-table options (validate.SnpAttestation), directly with the table entry, and through SevValidate; each call is compared with a fresh copy of the attestation as its owner built it, and the owner's attestations must be unchanged afterwards (caller-attestation-modified-by-validation); " +
+			"inflight = 1..3 validations (SevValidate with and without TestonlyForceGCS, closures, closures behind go-sev-guest) are parked inside their download by the bucket double while complete calls of 8 other configurations (TestonlyForceGCS set/unset, endorsement carried with and without a getter, in the options, downloaded) run, then released in a PRNG-chosen, also non-LIFO, order with complete calls in between and after (overlap arranged by channels, not by the scheduler); " +
+			"families = validators for different firmware families (and the GCE family through both entry points) created over one *verify.Options, some between two phases of calls, plus a sibling options value made by struct copy with an expired clock, against a bucket whose two folders publish different things per measurement; each validator is compared with itself alone over an options value of its own",
 		Assumptions: []string{"interleavings are whatever the Go scheduler produces; the race detector needs only two unordered accesses, the behavioural oracle needs the bad interleaving",
-			"validators are created before the goroutines start (C09 quantifies over invocations, not creation)"},
+			"validators are created before the goroutines start (C09 quantifies over invocations, not creation); the families histories also create validators between two phases of calls, while nothing is running",
+			"TestonlyForceGCS: the property does not say what the flag does to a carried endorsement, so a call with the flag is only compared with the same call alone"},
 		ShardsQuick: 6, ShardsThor: 12, TimeoutS: 1800, TimeoutThor: 5400, Run: run,
 	})
 }
